@@ -22,7 +22,7 @@ func agents() []*coresim.Agent {
 	}
 }
 
-var cfg = vrt.Config{Preempt: coresim.InterComponent, FreeSwitchCost: true, Horizon: 30 * time.Minute}
+var cfg = vrt.Config{Preempt: coresim.InterComponent, NoLockPoints: true, FreeSwitchCost: true, Horizon: 30 * time.Minute}
 
 // workflows: A uses hostA (detector TST), B uses hostB (ITS), C uses hostA+hostC (TST): C conflicts with A.
 var wfOf = map[string]string{"A": "c04-A", "B": "c04-B", "C": "c04-C"}
